@@ -187,6 +187,8 @@ def assemble(tpl_path, repo=REPO, drop_lines=()):
                 i += 1
             else:
                 raise ExtractError('%s: fn block without //@@ end' % tpl_path)
+            # names the template itself knows (stand-in methods, functions it extracts): calls to other private helpers of the impl block are inlined
+            spec['known_names'] = set(re.findall(r'\bfn\s+(\w+)\b', '\n'.join(lines))) | set(re.findall(r'\bname=(\w+)\b', '\n'.join(lines)))
             txt, info = (extract_closure_fn(repo, spec) if is_closure else (extract_loop_body_fn(repo, spec) if is_loopbody else extract_fn(repo, spec)))
             info['has_contract'] = bool(spec.get('contract'))
             fns.append(info)
@@ -381,6 +383,21 @@ def check_unit(unit, tpl_path, build_dir, repo=REPO, rlimit=20, extra=(), drop_l
         f.write(text)
     run = run_verus(rs, rlimit=rlimit, extra=extra)
     status, obs, err = results(run, crate, text)
+    # a function that contains a closure WITHOUT a contract cannot be verified against what that closure computes: its failure is
+    # inconclusive (UNDECIDED), never a violation
+    weak = set()
+    for f in fns:
+        if f.get('unannotated_closures'):
+            weak.add(f.get('verified_as') or re.sub(r' \(auto-pulled helper\)$', '', f['fn']).split('::')[-1])
+    inconclusive = []
+    for o in obs:
+        if not o['success'] and o['name'].split('::')[-1] in weak:
+            o['inconclusive'] = True
+            inconclusive.append(o['name'])
+    if status == 'failed' and inconclusive and all(o['success'] or o.get('inconclusive') for o in obs):
+        status = 'undecided'
+        err = ('inconclusive: %s fail(s) but contain(s) a closure that carries no contract (an unannotated closure has no postcondition, so the '
+               'failure does not show a violation)\n' % ', '.join(inconclusive)) + (err or '')
     smt_ms = 0
     try:
         smt_ms = run['json']['times-ms']['smt']['smt-run']
